@@ -1,32 +1,37 @@
-(* Model of goyang's identity resolution: pkg/yang/identity.go (identityDictionary, appendIfNotIn,
-   addChildren, findIdentityBase, resolveIdentities), with what it uses of node.go (getPrefix,
-   FindModuleByPrefix, RootNode, module), types.go (wholeModule; the identityref branch of
-   Type.resolve) and yang.go (Module.GetPrefix, Identity.modulePrefixedName).
+(* Model of goyang's identity resolution: pkg/yang/identity.go (identityDictionary with its owners table,
+   identityKey, appendIfNotIn, addChildren, findIdentityBase, identityDictionary.find, resolveIdentities), with
+   what it uses of node.go (getPrefix, FindModuleByPrefix, RootNode, module), modules.go (the two maps filled
+   by Modules.add, FindModule, sortedModules), types.go (wholeModule; the identityref branch of Type.resolve)
+   and yang.go (Module.Current / FullName / GetPrefix, Identity.modulePrefixedName).
 
-   A schema is what Modules.Parse left in ms.Modules / ms.SubModules, reduced to what identity resolution
-   reads: per module its name, kind, prefix (the belongs-to prefix for a submodule), belongs-to name,
-   import statements (prefix, module name) in source order, include statements in source order, and its
-   top-level identity statements (name, base arguments) in source order.
+   A schema is the list of modules and submodules that were loaded, in load order, reduced to what identity
+   resolution reads: name, kind, most recent revision date ("" = none), prefix (the belongs-to prefix for a
+   submodule), belongs-to name, import statements (prefix, module name, revision-date or "") and include
+   statements (name, revision-date or "") in source order, and the top-level identity statements (name,
+   base arguments) in source order.  Several revisions of one module may be loaded.
 
-   Pointers.  A *Module is the record itself, compared by (kind, name) -- the two maps of Modules hold one
-   module per name.  An *Identity is identified by its dictionary key "modulename:identityname": every
-   pointer that resolveIdentities ever stores in a Values slice is the Identity field of a dictionary entry
-   (base.Identity and i.Identity both come out of the dictionary), and the dictionary holds one entry per
-   key, so pointer equality in appendIfNotIn is key equality.  The Values field is the side table [vals].
+   Pointers.  A *Module is the record, compared by (kind, full name): Modules.add rejects a second node of
+   the same kind, name and revision.  An *Identity is named by its declaration id "<full name of the
+   (sub)module that declares it>:<identity name>" ([did_of]); this is exact when no (sub)module declares
+   an identity name twice and no module shares its full name with a submodule.  The dictionary maps keys
+   "<full name of the owning module revision>:<identity name>" to declarations; one declaration (of a
+   submodule included by two revisions) can be filed under several keys.  Identity.Values is the side
+   table [vals] from declaration ids to lists of declaration ids.
 
-   Go maps.  The three range loops over maps (ms.Modules; the identity dictionary, twice) each take an
-   iteration oracle [list string -> list string]; the theorems quantify over all oracles that return a
-   permutation of their argument.  Execution may use any (the driver offers several).
+   Go maps.  ms.Modules / ms.SubModules are walked in the order of their keys (sortedModules), each module
+   once; that is modelled exactly.  The two range loops over the identity dictionary each take an iteration
+   oracle [list string -> list string]; the theorems quantify over all oracles that return a permutation.
 
-   Recursion.  addChildren recurses on explicit fuel (depth); wholeModule's work list loop runs on fuel
-   too.  [resolve_identities] returns None only when addChildren runs out of fuel, which
-   Proofs/IdentityProofs.v shows impossible for the fuel it is given (number of identities + 1).
+   Recursion.  addChildren recurses on explicit fuel (depth); wholeModule's work list loop runs on fuel.
+   [resolve_identities] returns None only when addChildren runs out of fuel, which Proofs/IdentityProofs.v
+   shows impossible for the fuel it is given (number of dictionary entries + 1).
 
-   Not modelled: revisions (FindModule's name@revision keys: one module per name is assumed), reading
-   missing modules from disk (the harness runs in an empty directory), error text, the order of errors.
-   Modules.include stops at the first missing import/include of a module and leaves the later include
-   statements unresolved; the model resolves every include that can be resolved and reports the missing
-   ones ([ErrLink]) -- the difference is only visible in runs that report an error anyway. *)
+   Not modelled: module names containing '@' (a bare name that is also another module's full name), reading
+   missing modules from disk (the check compares such runs with all-parsed ones), error text, the order of
+   errors, earlier Process calls (resolveIdentities starts afresh).  Modules.include stops at the first
+   missing import/include of a module and leaves the later include statements unresolved; the model
+   resolves every include that can be resolved and reports the missing ones ([ErrLink]) -- the difference
+   is only visible in runs that report an error anyway. *)
 From Coq Require Import Ascii String List Bool Arith.
 Import ListNotations.
 Local Open Scope string_scope.
@@ -44,43 +49,103 @@ Record ident := Ident {
 
 Record module := Module {
   m_name : string;
-  m_sub : bool;                          (* Kind() == "submodule" *)
-  m_prefix : string;                     (* GetPrefix(): prefix statement, or belongs-to's prefix *)
-  m_belongs : string;                    (* BelongsTo.Name (submodules) *)
-  m_imports : list (string * string);    (* (Prefix.Name, Name) *)
-  m_includes : list string;
+  m_sub : bool;                                   (* Kind() == "submodule" *)
+  m_rev : string;                                 (* Current(): the most recent revision date, "" if none *)
+  m_prefix : string;                              (* GetPrefix(): prefix statement, or belongs-to's prefix *)
+  m_belongs : string;                             (* BelongsTo.Name (submodules) *)
+  m_imports : list (string * string * string);    (* (Prefix.Name, Name, RevisionDate.Name or "") *)
+  m_includes : list (string * string);            (* (Name, RevisionDate.Name or "") *)
   m_idents : list ident
 }.
 
 Definition schema := list module.
 Definition key := string.
 
-(* ms.Modules[n] (sub = false) / ms.SubModules[n] (sub = true) *)
-Definition find_mod (sc : schema) (sub : bool) (n : string) : option module :=
-  find (fun m => Bool.eqb (m_sub m) sub && (m_name m =? n)) sc.
+Definition str_ltb (a b : string) : bool :=
+  match String.compare a b with Lt => true | _ => false end.
+
+Definition with_rev (n r : string) : string := (n ++ "@" ++ r)%string.
+
+(* yang.go: Module.FullName *)
+Definition full_name (m : module) : string :=
+  if m_rev m =? "" then m_name m else with_rev (m_name m) (m_rev m).
+
+(* pointer equality of *Module *)
+Definition same_mod (a b : module) : bool :=
+  Bool.eqb (m_sub a) (m_sub b) && (full_name a =? full_name b).
+
+(* ------------------------------------------------------------------ ms.Modules / ms.SubModules *)
+
+(* Modules.add files a module under its full name (when that differs from the name) and under the bare name
+   "if o == nil || o.FullName() < fullName".  [latest]: the entry under the bare name n after all loads. *)
+Definition latest (sc : schema) (sub : bool) (n : string) : option module :=
+  fold_left (fun best m =>
+               if Bool.eqb (m_sub m) sub && (m_name m =? n) then
+                 match best with
+                 | None => Some m
+                 | Some o => if str_ltb (full_name o) (full_name m) then Some m else best
+                 end
+               else best) sc None.
+
+(* ms.Modules[k] (sub = false) / ms.SubModules[k] (sub = true) *)
+Definition reg_get (sc : schema) (sub : bool) (k : string) : option module :=
+  match latest sc sub k with
+  | Some m => Some m
+  | None => find (fun m => Bool.eqb (m_sub m) sub && negb (m_rev m =? "") && (full_name m =? k)) sc
+  end.
+
+(* Modules.FindModule for an import (sub = false) or include (sub = true) of n with revision-date date *)
+Definition find_module (sc : schema) (sub : bool) (n date : string) : option module :=
+  match reg_get sc sub (if date =? "" then n else with_rev n date) with
+  | Some m => Some m
+  | None => reg_get sc sub n
+  end.
+
+(* the keys of the map *)
+Definition reg_keys (sc : schema) (sub : bool) : list string :=
+  flat_map (fun m => if Bool.eqb (m_sub m) sub
+                     then m_name m :: (if m_rev m =? "" then [] else [full_name m])
+                     else []) sc.
+
+Fixpoint insert_sorted (less : string -> string -> bool) (x : string) (l : list string) : list string :=
+  match l with
+  | [] => [x]
+  | y :: r => if less x y then x :: l else y :: insert_sorted less x r
+  end.
+
+(* sort.SliceStable / sort.Strings: a stable sort (insertion sort is the reference stable sort) *)
+Definition stable_sort (less : string -> string -> bool) (l : list string) : list string :=
+  fold_right (insert_sorted less) [] l.
+
+Definition is_seen (x : module) (seen : list module) : bool := existsb (same_mod x) seen.
+
+(* "if visited[mod] { continue }" *)
+Fixpoint visit_once (seen l : list module) : list module :=
+  match l with
+  | [] => []
+  | m :: r => if is_seen m seen then visit_once seen r else m :: visit_once (m :: seen) r
+  end.
+
+(* sortedModules(map) followed by the visited test: every module of the map once, in the order of the keys *)
+Definition sorted_modules (sc : schema) (sub : bool) : list module :=
+  visit_once []
+    (flat_map (fun k => match reg_get sc sub k with Some m => [m] | None => [] end)
+              (stable_sort str_ltb (reg_keys sc sub))).
 
 (* node.go: module(n) for a node whose RootNode is m *)
 Definition owner (sc : schema) (m : module) : option module :=
-  if m_sub m then find_mod sc false (m_belongs m) else Some m.
+  if m_sub m then reg_get sc false (m_belongs m) else Some m.
 
-(* the module name modulePrefixedName / findIdentityBase's local branch use: the owner's, or the
-   submodule's own when its module is not loaded *)
+(* the module name modulePrefixedName uses *)
 Definition owner_name (sc : schema) (m : module) : string :=
   match owner sc m with Some o => m_name o | None => m_name m end.
 
-Definition mk_key (modname name : string) : key := (modname ++ ":" ++ name)%string.
-
-(* yang.go: Identity.modulePrefixedName for an identity declared in m *)
-Definition key_of (sc : schema) (m : module) (i : ident) : key := mk_key (owner_name sc m) (i_name i).
-
 (* ------------------------------------------------------------------ wholeModule *)
-
-Definition same_mod (a b : module) : bool := Bool.eqb (m_sub a) (m_sub b) && (m_name a =? m_name b).
-Definition is_seen (x : module) (seen : list module) : bool := existsb (same_mod x) seen.
 
 (* the in.Module of the include statements of m that Modules.include resolved *)
 Definition included (sc : schema) (m : module) : list module :=
-  flat_map (fun n => match find_mod sc true n with Some s => [s] | None => [] end) (m_includes m).
+  flat_map (fun nd => match find_module sc true (fst nd) (snd nd) with Some s => [s] | None => [] end)
+           (m_includes m).
 
 (* the loop "for i := 0; i < len(mods); i++": an element already seen is deleted, otherwise it is kept,
    marked, and its not yet seen includes are appended *)
@@ -105,11 +170,11 @@ Definition whole_fuel (sc : schema) (root : module) : nat :=
 
 Definition whole_module (sc : schema) (root : module) : list module :=
   let start := if m_sub root
-               then match find_mod sc false (m_belongs root) with Some o => [root; o] | None => [root] end
+               then match reg_get sc false (m_belongs root) with Some o => [root; o] | None => [root] end
                else [root] in
   whole_loop (whole_fuel sc root) sc [] start.
 
-(* ------------------------------------------------------------------ the dictionary (a Go map) *)
+(* ------------------------------------------------------------------ the dictionary and the owners table *)
 
 Definition entry := (module * ident)%type.           (* resolvedIdentity{Module, Identity} *)
 Definition dict := list (key * entry).
@@ -129,20 +194,59 @@ Fixpoint dict_set (d : dict) (k : key) (e : entry) : dict :=
 
 Definition dict_keys (d : dict) : list key := map fst d.
 
-Definition module_names (sc : schema) : list string :=
-  map m_name (filter (fun m => negb (m_sub m)) sc).
+Definition mk_key (modname name : string) : key := (modname ++ ":" ++ name)%string.
 
-Definition add_module_idents (sc : schema) (d : dict) (m : module) : dict :=
-  fold_left (fun d i => dict_set d (key_of sc m i) (m, i)) (m_idents m) d.
+(* identityKey(owner, name) *)
+Definition identity_key (o : module) (name : string) : key := mk_key (full_name o) name.
 
-(* first loop of resolveIdentities; ordm is the iteration order of ms.Modules *)
-Definition build_dict (ordm : list string -> list string) (sc : schema) : dict :=
-  fold_left (fun d n =>
-               match find_mod sc false n with
-               | None => d
-               | Some md => fold_left (add_module_idents sc) (whole_module sc md) d
-               end)
-            (ordm (module_names sc)) [].
+(* the name the model gives the *Identity declared as i in (sub)module m *)
+Definition did_of (e : entry) : key := mk_key (full_name (fst e)) (i_name (snd e)).
+
+Definition owners_table := list (module * list module).          (* map[*Module][]*Module *)
+
+Fixpoint owners_get (t : owners_table) (m : module) : list module :=
+  match t with
+  | [] => []
+  | (m', l) :: r => if same_mod m' m then l else owners_get r m
+  end.
+
+Definition owners_has (t : owners_table) (m : module) : bool :=
+  existsb (fun ml => same_mod (fst ml) m) t.
+
+Fixpoint owners_set (t : owners_table) (m : module) (l : list module) : owners_table :=
+  match t with
+  | [] => [(m, l)]
+  | (m', l') :: r => if same_mod m' m then (m, l) :: r else (m', l') :: owners_set r m l
+  end.
+
+Definition append_module_if_not_in (ms : list module) (chk : module) : list module :=
+  if is_seen chk ms then ms else ms ++ [chk].
+
+Definition pass1_state := (dict * owners_table)%type.
+
+(* the module the identities of m are filed under while the whole module of mod is registered *)
+Definition owner_for (sc : schema) (md m : module) : module :=
+  if m_sub m && negb (m_belongs m =? m_name md)
+  then match reg_get sc false (m_belongs m) with Some o => o | None => m end
+  else md.
+
+Definition register_part (sc : schema) (md : module) (st : pass1_state) (m : module) : pass1_state :=
+  let o := owner_for sc md m in
+  (fold_left (fun d i => dict_set d (identity_key o (i_name i)) (m, i)) (m_idents m) (fst st),
+   owners_set (snd st) m (append_module_if_not_in (owners_get (snd st) m) o)).
+
+Definition register_module (sc : schema) (st : pass1_state) (md : module) : pass1_state :=
+  fold_left (register_part sc md) (whole_module sc md) st.
+
+(* "A submodule that no module includes looks into the module it belongs to" *)
+Definition lone_submodule (sc : schema) (t : owners_table) (m : module) : owners_table :=
+  if owners_has t m then t
+  else owners_set t m [match reg_get sc false (m_belongs m) with Some o => o | None => m end].
+
+(* first part of resolveIdentities *)
+Definition pass1 (sc : schema) : pass1_state :=
+  let st := fold_left (register_module sc) (sorted_modules sc false) ([], []) in
+  (fst st, fold_left (lone_submodule sc) (sorted_modules sc true) (snd st)).
 
 (* ------------------------------------------------------------------ findIdentityBase *)
 
@@ -161,37 +265,42 @@ Fixpoint split_colon (s : string) : option (string * string) :=
 Definition get_prefix (s : string) : string * string :=
   match split_colon s with Some p => p | None => ("", s) end.
 
-(* FindModuleByPrefix's loop over mod.Import followed by Modules.FindModule *)
-Fixpoint import_target (imps : list (string * string)) (pfx : string) : option string :=
+(* FindModuleByPrefix's loop over mod.Import: the first import statement with that prefix *)
+Fixpoint import_target (imps : list (string * string * string)) (pfx : string) : option (string * string) :=
   match imps with
   | [] => None
-  | (p, n) :: r => if pfx =? p then Some n else import_target r pfx
+  | (p, n, date) :: r => if pfx =? p then Some (n, date) else import_target r pfx
   end.
 
-Definition has_key (d : dict) (k : key) : bool :=
-  match dict_get d k with Some _ => true | None => false end.
+(* identityDictionary.find over the owners list *)
+Fixpoint dict_find (d : dict) (owners : list module) (name : string) : option entry :=
+  match owners with
+  | [] => None
+  | o :: r => match dict_get d (identity_key o name) with
+              | Some e => Some e
+              | None => dict_find d r name
+              end
+  end.
 
-(* mod.findIdentityBase(baseStr): the key of the base identity, None = an error is returned *)
-Definition find_identity_base (sc : schema) (d : dict) (md : module) (base_str : string) : option key :=
+(* mod.findIdentityBase(baseStr): the base identity, None = an error is returned *)
+Definition find_identity_base (sc : schema) (d : dict) (t : owners_table) (md : module) (base_str : string)
+  : option entry :=
   let (base_prefix, base_name) := get_prefix base_str in
   if (base_prefix =? "") || (base_prefix =? m_prefix md) then
-    let k := mk_key (owner_name sc md) base_name in
-    if has_key d k then Some k else None
+    dict_find d (owners_get t md) base_name
   else
     match import_target (m_imports md) base_prefix with
     | None => None
-    | Some n =>
-      match find_mod sc false n with
+    | Some (n, date) =>
+      match find_module sc false n date with
       | None => None
-      | Some ext =>                       (* module(extmod) = extmod: ms.Modules holds modules only *)
-        let k := mk_key (m_name ext) base_name in
-        if has_key d k then Some k else None
+      | Some ext => dict_find d (owners_get t ext) base_name
       end
     end.
 
 (* ------------------------------------------------------------------ Values, appendIfNotIn, addChildren *)
 
-Definition vals := key -> list key.                   (* Identity.Values of the identity with that key *)
+Definition vals := key -> list key.                   (* Identity.Values, by declaration id *)
 Definition vempty : vals := fun _ => [].
 Definition vset (V : vals) (k : key) (l : list key) : vals :=
   fun x => if x =? k then l else V x.
@@ -221,26 +330,27 @@ Definition close (fuel : nat) (V : vals) (i : key) : option (list key) :=
 
 (* ------------------------------------------------------------------ the sort *)
 
-Definition str_ltb (a b : string) : bool :=
-  match String.compare a b with Lt => true | _ => false end.
+(* the declaration with that id *)
+Definition decl_get (d : dict) (x : key) : option entry :=
+  find (fun e => did_of e =? x) (map snd d).
 
-Definition ident_name (d : dict) (k : key) : string :=
-  match dict_get d k with Some (_, i) => i_name i | None => "" end.
-
-(* the less function handed to sort.SliceStable; modulePrefixedName of a dictionary identity is its key *)
-Definition id_less (d : dict) (j k : key) : bool :=
-  if negb (ident_name d j =? ident_name d k) then str_ltb (ident_name d j) (ident_name d k)
-  else str_ltb j k.
-
-(* sort.SliceStable: a stable sort (insertion sort is the reference stable sort) *)
-Fixpoint insert_sorted (less : key -> key -> bool) (x : key) (l : list key) : list key :=
-  match l with
-  | [] => [x]
-  | y :: r => if less x y then x :: l else y :: insert_sorted less x r
+(* what the less function compares: Name, modulePrefixedName(), RootNode(..).FullName() *)
+Definition sort_key (sc : schema) (d : dict) (x : key) : list string :=
+  match decl_get d x with
+  | Some (m, i) => [i_name i; mk_key (owner_name sc m) (i_name i); full_name m]
+  | None => []
   end.
 
-Definition stable_sort (less : key -> key -> bool) (l : list key) : list key :=
-  fold_right (insert_sorted less) [] l.
+(* "if a != b { return a < b }" down the list *)
+Fixpoint lex_ltb (a b : list string) : bool :=
+  match a, b with
+  | [], [] => false
+  | [], _ :: _ => true
+  | _ :: _, [] => false
+  | x :: a', y :: b' => if negb (x =? y) then str_ltb x y else lex_ltb a' b'
+  end.
+
+Definition id_less (sc : schema) (d : dict) (j k : key) : bool := lex_ltb (sort_key sc d j) (sort_key sc d k).
 
 Definition mem (x : key) (l : list key) : bool := existsb (String.eqb x) l.
 
@@ -248,86 +358,92 @@ Definition mem (x : key) (l : list key) : bool := existsb (String.eqb x) l.
 
 Inductive err :=
 | ErrLink (m target : string)      (* Modules.include: no such module / submodule *)
-| ErrBase (i : key) (b : string)   (* findIdentityBase failed for base b of identity i *)
+| ErrBase (i : key) (b : string)   (* findIdentityBase failed for base b of the identity declared as i *)
 | ErrCycle (i : key).              (* identity i is derived from itself *)
 
 Definition state := (vals * list err)%type.
 
 (* second loop: direct children.  ord2 (keys) is the iteration order of the dictionary *)
-Definition pass2_base (sc : schema) (d : dict) (md : module) (k : key) (st : state) (b : string) : state :=
-  match find_identity_base sc d md b with
-  | None => (fst st, snd st ++ [ErrBase k b])
-  | Some bk => (vset (fst st) bk (fst st bk ++ [k]), snd st)
+Definition pass2_base (sc : schema) (d : dict) (t : owners_table) (e : entry) (st : state) (b : string) : state :=
+  match find_identity_base sc d t (fst e) b with
+  | None => (fst st, snd st ++ [ErrBase (did_of e) b])
+  | Some be => (vset (fst st) (did_of be) (fst st (did_of be) ++ [did_of e]), snd st)
   end.
 
-Definition pass2_step (sc : schema) (d : dict) (st : state) (k : key) : state :=
+Definition pass2_step (sc : schema) (d : dict) (t : owners_table) (st : state) (k : key) : state :=
   match dict_get d k with
   | None => st
-  | Some (md, i) => fold_left (pass2_base sc d md k) (i_bases i) st
+  | Some e => fold_left (pass2_base sc d t e) (i_bases (snd e)) st
   end.
 
-Definition pass2 (sc : schema) (d : dict) (order : list key) : state :=
-  fold_left (pass2_step sc d) order (vempty, []).
+Definition pass2 (sc : schema) (d : dict) (t : owners_table) (order : list key) : state :=
+  fold_left (pass2_step sc d t) order (vempty, []).
 
 (* third loop: closure, sort, self-derivation test *)
-Definition pass3_step (fuel : nat) (d : dict) (ost : option state) (i : key) : option state :=
+Definition pass3_step (fuel : nat) (sc : schema) (d : dict) (ost : option state) (k : key) : option state :=
   match ost with
   | None => None
   | Some (V, errs) =>
-    match dict_get d i with
+    match dict_get d k with
     | None => Some (V, errs)
-    | Some _ =>
+    | Some e =>
+      let i := did_of e in
       match close fuel V i with
       | None => None
       | Some nv =>
-        let nv' := stable_sort (id_less d) nv in
+        let nv' := stable_sort (id_less sc d) nv in
         Some (vset V i nv', if mem i nv' then errs ++ [ErrCycle i] else errs)
       end
     end
   end.
 
-Definition pass3 (fuel : nat) (d : dict) (order : list key) (st : state) : option state :=
-  fold_left (pass3_step fuel d) order (Some st).
+Definition pass3 (fuel : nat) (sc : schema) (d : dict) (order : list key) (st : state) : option state :=
+  fold_left (pass3_step fuel sc d) order (Some st).
 
 (* Modules.process: include/import statements of every loaded module and of the submodules they
    include that name nothing loaded *)
 Definition link_errors_of (sc : schema) (m : module) : list err :=
-  flat_map (fun n => match find_mod sc true n with Some _ => [] | None => [ErrLink (m_name m) n] end)
+  flat_map (fun nd => match find_module sc true (fst nd) (snd nd) with
+                      | Some _ => [] | None => [ErrLink (m_name m) (fst nd)] end)
            (m_includes m) ++
-  flat_map (fun pn => match find_mod sc false (snd pn) with Some _ => [] | None => [ErrLink (m_name m) (snd pn)] end)
+  flat_map (fun pnd => match find_module sc false (snd (fst pnd)) (snd pnd) with
+                       | Some _ => [] | None => [ErrLink (m_name m) (snd (fst pnd))] end)
            (m_imports m).
 
 Definition link_errors (sc : schema) : list err :=
-  flat_map (fun n => match find_mod sc false n with
-                     | None => []
-                     | Some md => flat_map (link_errors_of sc) (whole_module sc md)
-                     end) (module_names sc).
+  flat_map (fun md => flat_map (link_errors_of sc) (whole_module sc md)) (sorted_modules sc false).
 
 Record result := Result {
   r_dict : dict;
+  r_owners : owners_table;
   r_values : vals;
   r_errors : list err
 }.
 
-Definition resolve_identities (ordm ord2 ord3 : list string -> list string) (sc : schema) : option result :=
-  let d := build_dict ordm sc in
+Definition resolve_identities (ord2 ord3 : list string -> list string) (sc : schema) : option result :=
+  let (d, t) := pass1 sc in
   let ks := dict_keys d in
-  let st2 := pass2 sc d (ord2 ks) in
-  match pass3 (length ks + 1) d (ord3 ks) st2 with
+  let st2 := pass2 sc d t (ord2 ks) in
+  match pass3 (length ks + 1) sc d (ord3 ks) st2 with
   | None => None                                       (* out of fuel: excluded by resolve_total *)
-  | Some (V, errs) => Some (Result d V (link_errors sc ++ errs))
+  | Some (V, errs) => Some (Result d t V (link_errors sc ++ errs))
   end.
 
-(* what a caller reads: the Values of every dictionary identity *)
-Definition values_list (r : result) : list (key * list key) :=
-  map (fun k => (k, r_values r k)) (dict_keys (r_dict r)).
+(* what a caller reads: per dictionary key the declaration filed there and its Values *)
+Definition values_list (r : result) : list (key * key * list key) :=
+  map (fun ke => (fst ke, did_of (snd ke), r_values r (did_of (snd ke)))) (r_dict r).
 
 (* types.go, Type.resolve, case Yidentityref: root.findIdentityBase(t.IdentityBase.Name) for a type
-   statement inside the (sub)module named n; the YangType keeps the identity, so reads its Values *)
-Definition identityref_base (sc : schema) (d : dict) (sub : bool) (n : string) (base_str : string) : option key :=
-  match find_mod sc sub n with
+   statement inside the (sub)module with that kind and full name; the YangType keeps the identity, so
+   reads its Values *)
+Definition identityref_base (sc : schema) (r : result) (sub : bool) (fulln : string) (base_str : string)
+  : option key :=
+  match find (fun m => Bool.eqb (m_sub m) sub && (full_name m =? fulln)) sc with
   | None => None
-  | Some md => find_identity_base sc d md base_str
+  | Some md => match find_identity_base sc (r_dict r) (r_owners r) md base_str with
+               | Some e => Some (did_of e)
+               | None => None
+               end
   end.
 
 (* ------------------------------------------------------------------ some iteration oracles (execution) *)
